@@ -1262,11 +1262,57 @@ def r3_walks(program, rep):
                            else "enabled", name.split("_")[0]))
 
 
+def r2_derived_instances(program, rep):
+    """A bit field with values given (``bf(x=1)``) is a new BitField object;
+    fields added and laid out through it are checked against ITS length, so
+    it must be given the length, the field tree and the values of the one it
+    was derived from."""
+    fn = program.get(BF + ".__call__")
+    init = program.get(BF + ".__init__")
+    T = Terms(fn)
+    SELF = ("param", formals(fn)[0])
+    made = [c for c in ast.walk(fn) if isinstance(c, ast.Call) and (
+        (isinstance(c.func, ast.Call) and call_name(c.func)[0] == "type") or
+        call_name(c)[0] == "BitField" or (
+            isinstance(c.func, ast.Attribute) and
+            c.func.attr == "__class__"))]
+    made = [c for c in made if not (isinstance(c.func, ast.Name) and
+                                    c.func.id == "type")]
+    if len(made) != 1:
+        raise AnalysisError("BitField.__call__: the creation of the derived "
+                            "instance was not found in the form analysed")
+    c = made[0]
+    if any(isinstance(a, ast.Starred) for a in c.args) or any(
+            k.arg is None for k in c.keywords):
+        raise AnalysisError("BitField.__call__: the derived instance is "
+                            "created with unpacked arguments; not analysed")
+    n = T.cfg.node_containing(c)
+    ps = formals(init)[1:]
+    got = dict(zip(ps, [T.term(a, n) for a in c.args]))
+    for k in c.keywords:
+        got[k.arg] = T.term(k.value, n)
+    rep.check(plain(got.get(ps[0], ("?",))) == ("attr", SELF, "length"),
+              "C08-R2", qual(fn), "a derived bit field is created with the "
+              "length of the one it is derived from",
+              construct="derived length %s" % show(got.get(ps[0], ("?",))),
+              node=c,
+              fail="the BitField made by __call__ is not given self.length "
+                   "(it gets %s): fields defined or laid out through it are "
+                   "checked against another length, so they can be accepted "
+                   "beyond the last bit of the bit field or refused inside "
+                   "it" % (show(got[ps[0]]) if ps[0] in got else
+                           "the default length"))
+    rep.check(plain(got.get(ps[1], ("?",))) == ("attr", SELF, "fields"),
+              "C08-R2", qual(fn), "a derived bit field shares the field "
+              "tree", construct="derived fields", node=c)
+
+
 def check(program, rep):
     program.module("rig.bitfield")
     rep.guard("C08-R1", r1_accept, program, rep)
     rep.guard(["C08-R1", "C08-R3", "C08-R4"], r1_scan, program, rep)
     rep.guard("C08-R2", r2_explicit, program, rep)
+    rep.guard("C08-R2", r2_derived_instances, program, rep)
     rep.guard(["C08-R3", "C08-R4"], r3_masks, program, rep)
     rep.guard("C08-R3", r3_walks, program, rep)
     rep.guard("C08-R4", r4_order, program, rep)
